@@ -89,7 +89,7 @@ def r_C29(root):
         for c in [c for c in calls(fn) if callee_name(c) == "dot_match_str"]:
             st_ = stmt_of(c); var = st_.targets[0].id if isinstance(st_, ast.Assign) and isinstance(st_.targets[0], ast.Name) else None
             wrapped = any(callee_name(a) in SANITIZERS - {"id", "len", "hex"} for a in ancestors(c) if isinstance(a, ast.Call))
-            if var: wrapped = any(callee_name(k) in SANITIZERS and any(isinstance(x, ast.Name) and x.id == var for x in ast.walk(k)) for k in calls(fn))
+            if var and not wrapped: wrapped = any(callee_name(k) in SANITIZERS and any(isinstance(x, ast.Name) and x.id == var for x in ast.walk(k)) for k in calls(fn))
             if not wrapped: out.append(Finding("C29", "C29.a", E, q, " ".join(ast.unparse(st_).split())[:90], "match-rule text rendered without escaping"))
     return inst, out
 ALL = [r_C29]
